@@ -20,7 +20,7 @@ def run_part(ctx, vh=None, md=None):
     vh = vh or ctx.build_harness()
     md = md or ctx.build_maindrv()
     out = ctx.sub("acmd")
-    ctx.run_driver(vh, "TestDrv_E2E", out, {"VERIF_MAINDRV": md, "VERIF_CASES": cases})
+    ctx.run_driver(vh, "TestDrv_E2E", out, {"VERIF_MAINDRV": md, "VERIF_CASES": cases, "VERIF_FOR": ctx.pid})
     lines = open(os.path.join(out, "e2e.ndjson")).readlines()
     head, rest = lines[0], lines[1:]
     chunks = [(1 + i, [head] + rest[i:i + 12]) for i in range(0, len(rest), 12)]
